@@ -92,6 +92,13 @@ def run(ck):
     clean = triage(ck, files)
     ck.validate_traces('ApbpConcTrace', 'Trace_ApbpConc.cfg', clean, deque=True, timeout=1500)
     hammer(ck)
+    # 5. "every send with interrupts enabled is followed by an interrupt delivery", sequentially and in the composed
+    #    machine: host calls between slices of guest programs that service the mailbox interrupt; ICU request,
+    #    latches, handler entry and every callback must be those of System.tla (SysTrace)
+    from props import sys_common
+    ck.build('sys_rec')
+    sfiles = sys_common.record(ck, ck.pick(4, 16), ck.pick(4, 12), tag='c19io', mode='io', seedoff=1700)
+    sys_common.validate(ck, sfiles)
     for f in files[:2]:
         try:
             with open(f) as fh:
